@@ -65,47 +65,49 @@ Definition expr_apply (o : aop) (a b : str) : outcome str :=
     | _, _ => ROk (a ++ $" " ++ sym_of o ++ $" " ++ b)          (* analyze_number failed: kept as text *)
     end.
 
-Section WithFuel.
-  (* fuel bounds the chain of variable-to-variable references (the real loop has no bound) *)
-  Fixpoint eval_value (fuel : nat) (sc : scope) (toks : list vtok) {struct fuel} : outcome (list str) :=
-    match fuel with
-    | O => RFuel
-    | S f =>
-        let lookup (x : str) : outcome (list str) :=
-          let x' := match x with "@" :: "@" :: r => None | _ => Some x end in
-          match x' with
-          | Some nm =>
-              match variables nm sc with
-              | Some v => eval_value f sc v
-              | None => RError $"SyntaxError" ($"Unknown variable " ++ nm)
-              end
-          | None => RError $"SyntaxError" $"indirect variable not modelled"
-          end in
-        let fix ex (e : xexpr) : outcome str :=
-          match e with
-          | XTok s => ROk s
-          | XVar x => rbind (lookup x) (fun l =>
-                        match filter (fun t => negb (is_blank_tok t)) l with
-                        | [one] => ROk one
-                        | _ => REscaped $"ValueError"
-                        end)
-          | XBin o l r => rbind (ex l) (fun a => rbind (ex r) (fun b => expr_apply o (strip_ws a) (strip_ws b)))
-          | XNeg e1 => rbind (ex e1) (fun a => ROk (match a with "-" :: r => r | _ => "-" :: a end))
-          end in
-        let fix go (ts : list vtok) : outcome (list str) :=
-          match ts with
-          | [] => ROk []
-          | t :: r =>
-              rbind (match t with
-                     | VT s => ROk [s]
-                     | VVar x => lookup x
-                     | VExpr e => rbind (ex e) (fun s => ROk [s])
-                     | VCall name args => rbind (eval_value f sc args) (fun a => ROk [name ++ $"(" ++ concat_str a ++ $")"])
-                     end) (fun here => rbind (go r) (fun rest => ROk (here ++ rest)))
-          end in
-        go toks
-    end.
-End WithFuel.
+(* the pieces of Node.process, parameterised by how a variable is looked up and how call arguments are evaluated *)
+Fixpoint eval_xexpr (lookup : str -> outcome (list str)) (e : xexpr) : outcome str :=
+  match e with
+  | XTok s => ROk s
+  | XVar x => rbind (lookup x) (fun l =>
+                match filter (fun t => negb (is_blank_tok t)) l with
+                | [one] => ROk one
+                | _ => REscaped $"ValueError"
+                end)
+  | XBin o l r => rbind (eval_xexpr lookup l) (fun a => rbind (eval_xexpr lookup r) (fun b => expr_apply o (strip_ws a) (strip_ws b)))
+  | XNeg e1 => rbind (eval_xexpr lookup e1) (fun a => ROk (match a with "-" :: r => r | _ => "-" :: a end))
+  end.
+
+Definition eval_tok (lookup : str -> outcome (list str)) (rec : list vtok -> outcome (list str)) (t : vtok) : outcome (list str) :=
+  match t with
+  | VT s => ROk [s]
+  | VVar x => lookup x
+  | VExpr e => rbind (eval_xexpr lookup e) (fun s => ROk [s])
+  | VCall name args => rbind (rec args) (fun a => ROk [name ++ $"(" ++ concat_str a ++ $")"])
+  end.
+
+Fixpoint eval_toks (lookup : str -> outcome (list str)) (rec : list vtok -> outcome (list str)) (ts : list vtok) : outcome (list str) :=
+  match ts with
+  | [] => ROk []
+  | t :: r => rbind (eval_tok lookup rec t) (fun here => rbind (eval_toks lookup rec r) (fun rest => ROk (here ++ rest)))
+  end.
+
+(* Scope.swap: the variable's value (a token list) is evaluated where it is used *)
+Definition lookup_with (rec : list vtok -> outcome (list str)) (sc : scope) (x : str) : outcome (list str) :=
+  match x with
+  | "@" :: "@" :: _ => RError $"SyntaxError" $"indirect variable not modelled"
+  | _ => match variables x sc with
+         | Some v => rec v
+         | None => RError $"SyntaxError" ($"Unknown variable " ++ x)
+         end
+  end.
+
+(* fuel bounds the chain of variable-to-variable references (the real loop has no bound) *)
+Fixpoint eval_value (fuel : nat) (sc : scope) (toks : list vtok) {struct fuel} : outcome (list str) :=
+  match fuel with
+  | O => RFuel
+  | S f => eval_toks (lookup_with (eval_value f sc) sc) (eval_value f sc) toks
+  end.
 
 Definition value_fuel : nat := 64.
 
